@@ -80,10 +80,18 @@ def track_probes(nt, bases):
                      ("hot_cue_at", {"i": 2, "v": [{"label": "@long300", "off": BIG}]}), ("hot_cue_at", {"i": 0, "v": [{"label": "@long256", "off": BIG}]}),
                      ("beatgrid", [[0, BIG]]), ("beatgrid", [[5, BIG], [1, "4000000000000000"]]), ("duration", [-1]), ("duration", [2147483647]),
                      ("rating", [-2147483647]), ("key", [99]), ("relative_path", [""]), ("relative_path", ["@long5000"]),
-                     ("last_played_at", [{"s": "-1", "f": 0}]), ("last_played_at", [{"s": "9223372035", "f": 0}]), ("title", ["@long100000"])]:
+                     ("last_played_at", [{"s": "-1", "f": 0}]), ("last_played_at", [{"s": "9223372035", "f": 0}]), ("title", ["@long100000"]),
+                     # the most negative 64-bit count with a rate of -1 (INT64_MIN / -1), in both orders of arrival
+                     ("sample_rate", ["bff0000000000000"]), ("sample_count", ["9223372036854775808"]), ("sample_rate", ["40e5888000000000"]),
+                     ("sample_rate", ["bff0000000000000"]), ("sample_count", ["18446744073709551615"]), ("sample_rate", ["bff8000000000000"]),
+                     # rates no 64-bit integer can hold (1e300, -1e300, 2^63), with a count present
+                     ("sample_rate", ["7e37e43c8800759c"]), ("sample_rate", ["fe37e43c8800759c"]), ("sample_rate", ["43e0000000000000"])]:
             ops.append({"op": "set", "t": t, "f": f, "v": v, "probe": True})
         ops.append({"op": "update", "t": t, "snap": ext, "probe": True})
         ops.append({"op": "update", "t": t, "snap": nowave, "probe": True})
+    negrate = dict(bases["full"], relative_path=["w/negrate.mp3"], sample_rate=["bff0000000000000"], sample_count=["9223372036854775808"])
+    negrate.pop("waveform", None)
+    ops += [{"op": "create", "snap": negrate, "probe": True}]
     ops += [{"op": "create", "snap": ext, "probe": True}, {"op": "create", "snap": nowave, "probe": True},
             {"op": "create", "snap": {}, "probe": True}]
     for t in range(1, nt + 1):
